@@ -6,6 +6,8 @@ package main
 //   (hostile.mac  x<msgpack> <tag>)                      macaroon.Decode / DecodeNonce, then every op
 //   (hostile.json x<utf8>    <tag>)                      CaveatSet.UnmarshalJSON (+ Macaroon / Nonce JSON), then every op
 //   (hostile.hdr  x<utf8>    <tag>)                      macaroon.Parse, ParsePermissionAndDischargeTokens, bundle.ParseBundle, ...
+//   (hostile.depth x<msgpack> <tag>)                     nesting depth measured by the harness's own scanner (the one that
+//                                                        tags inputs `.over200`) against the model's decoder; no library call
 //   (hostile.rep.cavs x<prefix> x<unit> <n> x<suffix> <tag>)   the input prefix ++ unit^n ++ suffix, run ALONE in a
 //   (hostile.rep.mac  ...)                               dedicated child process (inputs that can take the process down)
 //
@@ -790,6 +792,9 @@ func runHostile(in *hIn) (res string, value string, ops string, allocBytes uint6
 	if c.verified {
 		v = 1
 	}
+	if strings.Contains(in.tag, ".extmap") && dec != "panic" {
+		dec, value = "?", "" // outside the modelled wire domain: the accept/refuse verdict is not compared
+	}
 	return dec + " " + c.field() + " " + allocBucket(alloc, len(b)), value, c.opList(), alloc, fmt.Sprintf("%d,%d", c.nops, v)
 }
 
@@ -993,10 +998,11 @@ func runWorkers(dir string, ins []*hIn) []hRes {
 // ------------------------------------------------------------------------------------------------
 
 type hGen struct {
-	r    *Rng
-	o    *Out
-	ins  []*hIn
-	pool [][]byte // hostile token bytes, for embedding in headers
+	r          *Rng
+	o          *Out
+	depthLines [][2]string // (hostile.depth ..) op and the scanner's answer, emitted after the inputs
+	ins        []*hIn
+	pool       [][]byte // hostile token bytes, for embedding in headers
 }
 
 // modelBudget: the nesting budget of the model's decoders (Caveat/Codec.lean: defaultFuel)
@@ -1085,11 +1091,106 @@ func mpMaxDepth(b []byte) int {
 	return max
 }
 
+// mpExtBeforeMap: some value position of b holds an ext header that is directly followed by a map header.
+// vmihailenco's DecodeMapLen skips an ext HEADER (not its payload) in front of a map length, so where a map is
+// expected the library reads such bytes as a map; the model's decoder is a plain msgpack parser and has no such
+// case (documented as outside the modelled wire domain, C11).  Such inputs keep their P-observable (no panic, no
+// balloon) but their accept/refuse verdict is not compared.
+func mpExtBeforeMap(b []byte) bool {
+	isMap := func(i int) bool {
+		return i < len(b) && (b[i]&0xf0 == 0x80 || b[i] == 0xde || b[i] == 0xdf)
+	}
+	var open []uint64
+	pos := 0
+	be := func(n int) (uint64, bool) {
+		if len(b)-pos < n {
+			return 0, false
+		}
+		v := beUint(b[pos : pos+n])
+		pos += n
+		return v, true
+	}
+	for pos < len(b) {
+		c := b[pos]
+		pos++
+		var skip, items uint64
+		container, ok := false, true
+		switch {
+		case c <= 0x7f, c >= 0xe0, c == 0xc0, c == 0xc2, c == 0xc3:
+		case c >= 0xa0 && c <= 0xbf:
+			skip = uint64(c & 0x1f)
+		case c >= 0x90 && c <= 0x9f:
+			container, items = true, uint64(c&0x0f)
+		case c >= 0x80 && c <= 0x8f:
+			container, items = true, 2*uint64(c&0x0f)
+		case c == 0xc4, c == 0xd9:
+			skip, ok = be(1)
+		case c == 0xc5, c == 0xda:
+			skip, ok = be(2)
+		case c == 0xc6, c == 0xdb:
+			skip, ok = be(4)
+		case c == 0xc7, c == 0xc8, c == 0xc9:
+			skip, ok = be(1 << (c - 0xc7))
+			if ok && isMap(pos+1) {
+				return true
+			}
+			skip++
+		case c == 0xca, c == 0xce, c == 0xd2:
+			skip = 4
+		case c == 0xcb, c == 0xcf, c == 0xd3:
+			skip = 8
+		case c == 0xcc, c == 0xd0:
+			skip = 1
+		case c == 0xcd, c == 0xd1:
+			skip = 2
+		case c >= 0xd4 && c <= 0xd8:
+			if isMap(pos + 1) {
+				return true
+			}
+			skip = 1 + uint64(1)<<(c-0xd4)
+		case c == 0xdc, c == 0xde:
+			container = true
+			items, ok = be(2)
+		case c == 0xdd, c == 0xdf:
+			container = true
+			items, ok = be(4)
+		default:
+			return false
+		}
+		if c == 0xde || c == 0xdf {
+			items *= 2
+		}
+		if !ok || skip > uint64(len(b)-pos) {
+			return false
+		}
+		pos += int(skip)
+		if container {
+			open = append(open, items)
+		} else if len(open) == 0 {
+			return false
+		} else {
+			open[len(open)-1]--
+		}
+		for len(open) > 0 && open[len(open)-1] == 0 {
+			open = open[:len(open)-1]
+			if len(open) == 0 {
+				return false
+			}
+			open[len(open)-1]--
+		}
+	}
+	return false
+}
+
 func (g *hGen) add(kind, tag string, data []byte) {
 	// inputs nested beyond the model's budget are marked: the model refuses them by construction, the
 	// library has no budget (F12) - the mark keys that finding
 	if (kind == "cavs" || kind == "mac") && mpMaxDepth(data) > modelBudget {
 		tag += ".over200"
+	}
+	if (kind == "cavs" || kind == "mac") && mpExtBeforeMap(data) {
+		tag += ".extmap"
+		g.o.count("gen.extmap")
 	}
 	g.ins = append(g.ins, &hIn{kind: kind, tag: tag, data: append([]byte(nil), data...)})
 	g.o.count("gen." + kind + "." + tag)
@@ -1448,6 +1549,271 @@ func (g *hGen) deep(maxDepth int) {
 		g.add("mac", "deep.tok.nonce", mpEnc(mpA(mpNest(k, nonce), mpS(hLoc), mpA(), mpBn(nil))))
 		g.add("mac", "deep.tok.loc", mpEnc(mpA(nonce, mpNest(k, mpS("l")), mpA(), mpBn(nil))))
 		g.add("mac", "deep.tok.skipped", mpEnc(mpM(mpS("Junk"), mpNest(k, mpU(1)), mpS("Nonce"), nonce, mpS("Location"), mpS(hLoc))))
+	}
+}
+
+// ---- nesting through every container header kind --------------------------------------------------------
+//
+// The nesting check of the library (depth.go: checkDepth) and the scanner of this harness (mpMaxDepth) both
+// walk msgpack by header kind.  A kind walked with the wrong item count or a sibling skipped by the wrong
+// width makes the walk lose its place, close the enclosing containers early and never see the deep part.
+// This generator therefore puts the deep part behind every kind of thing: each of the six container headers
+// as ENCLOSING container (deep part first / middle / last; for maps in key and in value position of the
+// first, middle and last pair) and as NESTING container (maps nested through their value or through their
+// key), with scalar siblings of every header width in front of it, inside unknown-type bodies, skipped
+// values of known-type bodies, conditionals, token caveats and skipped token fields - at depths on both
+// sides of the budget (exact accept/refuse agreement with the model) and far beyond it (the stack shows).
+// Every well-formed input of moderate depth also yields a line (hostile.depth x<bytes> <tag>): the depth the
+// harness's scanner measures against the depth of the tree the model's `dec` returns.
+
+type hCont struct {
+	name  string
+	isMap bool
+	code  byte
+}
+
+var hContKinds = []hCont{{"fixarr", false, 0}, {"arr16", false, 0xdc}, {"arr32", false, 0xdd},
+	{"fixmap", true, 0}, {"map16", true, 0xde}, {"map32", true, 0xdf}}
+
+func (k hCont) mk(kids ...*mpNode) *mpNode {
+	kind := mpArr
+	if k.isMap {
+		kind = mpMap
+	}
+	return &mpNode{Kind: kind, Code: k.code, Kids: kids}
+}
+
+// a nesting scheme: container kind + (for maps) whether the chain goes down through the key or the value
+type hNest struct {
+	k     hCont
+	inKey bool
+}
+
+func (n hNest) name() string {
+	if !n.k.isMap {
+		return n.k.name
+	}
+	if n.inKey {
+		return n.k.name + "key"
+	}
+	return n.k.name + "val"
+}
+
+// wrap: `levels` one-element containers around a nil, as verbatim bytes (built iteratively: prefix^levels ++
+// c0 ++ suffix^levels)
+func (n hNest) wrap(levels int) *mpNode {
+	var pre, suf []byte
+	switch n.k.code {
+	case 0:
+		if n.k.isMap {
+			pre = []byte{0x81}
+		} else {
+			pre = []byte{0x91}
+		}
+	case 0xdc, 0xde:
+		pre = []byte{n.k.code, 0, 1}
+	default:
+		pre = []byte{n.k.code, 0, 0, 0, 1}
+	}
+	if n.k.isMap {
+		if n.inKey {
+			suf = []byte{0xc0} // the value of the one pair
+		} else {
+			pre = append(pre, 0xa1, 0x61) // the key "a"
+		}
+	}
+	out := make([]byte, 0, levels*(len(pre)+len(suf))+1)
+	for i := 0; i < levels; i++ {
+		out = append(out, pre...)
+	}
+	out = append(out, 0xc0)
+	for i := 0; i < levels; i++ {
+		out = append(out, suf...)
+	}
+	return &mpNode{Kind: mpRaw, Raw: out}
+}
+
+func hNestings() []hNest {
+	var out []hNest
+	for _, k := range hContKinds {
+		if k.isMap {
+			out = append(out, hNest{k, false}, hNest{k, true})
+		} else {
+			out = append(out, hNest{k, false})
+		}
+	}
+	return out
+}
+
+// positions of the deep part in an enclosing container of three elements / three pairs
+type hPos struct {
+	name string
+	idx  int // index into the flat child list (maps: key0 val0 key1 val1 key2 val2)
+}
+
+func hPositions(k hCont) []hPos {
+	if !k.isMap {
+		return []hPos{{"first", 0}, {"middle", 1}, {"last", 2}}
+	}
+	return []hPos{{"key0", 0}, {"val0", 1}, {"key1", 2}, {"val1", 3}, {"key2", 4}, {"val2", 5}}
+}
+
+// enclosing container with `deep` at position pos and `sib` (or short scalars) elsewhere
+func hEnclose(k hCont, pos hPos, deep *mpNode, sib *mpNode) *mpNode {
+	var kids []*mpNode
+	if k.isMap {
+		kids = []*mpNode{mpS("k0"), mpU(1), mpS("k1"), mpS("v"), mpS("k2"), mpNilNode()}
+	} else {
+		kids = []*mpNode{mpS("s"), mpU(1), mpNilNode()}
+	}
+	if sib != nil {
+		// the sibling goes right in front of the deep part (or right behind it when the deep part is first)
+		at := pos.idx - 1
+		if at < 0 {
+			at = 1
+		}
+		kids[at] = sib
+	}
+	kids[pos.idx] = deep
+	return k.mk(kids...)
+}
+
+// where the enclosing container sits
+type hPlace struct {
+	name string
+	kind string
+	mk   func(e *mpNode) []byte
+}
+
+func hPlaces() []hPlace {
+	nonce := mpA(mpBn([]byte("kid")), mpBn(bytes.Repeat([]byte{7}, 16)), mpB(false))
+	tail := mpBn(bytes.Repeat([]byte{9}, 32))
+	unk := uint64(1<<48 + 7)
+	return []hPlace{
+		{"unreg", "cavs", func(e *mpNode) []byte { return mpCavs(mpU(unk), e) }},
+		{"skipped", "cavs", func(e *mpNode) []byte { return mpCavs(mpU(0), mpM(mpS("Junk"), e, mpS("ID"), mpU(1))) }},
+		{"ifs", "cavs", func(e *mpNode) []byte { return mpCavs(mpU(13), mpA(mpA(mpU(17), e), mpU(31))) }},
+		{"tok.cavs", "mac", func(e *mpNode) []byte { return mpEnc(mpA(nonce, mpS(hLoc), mpA(mpU(unk), e), tail)) }},
+		{"tok.skipped", "mac", func(e *mpNode) []byte {
+			return mpEnc(mpM(mpS("Junk"), e, mpS("Nonce"), nonce, mpS("Location"), mpS(hLoc)))
+		}},
+	}
+}
+
+// scalar siblings of every header width; payloads are full of bytes that read as container headers, so that a
+// walk that skips the wrong width lands in them
+func hSiblings() []struct {
+	name string
+	n    *mpNode
+} {
+	pay := func(n int) []byte {
+		return bytes.Repeat([]byte{0x91, 0xdc, 0x00, 0x91, 0xde, 0x00, 0x01, 0x81}, n/8+1)[:n]
+	}
+	raw := func(b ...[]byte) *mpNode { return &mpNode{Kind: mpRaw, Raw: bytes.Join(b, nil)} }
+	return []struct {
+		name string
+		n    *mpNode
+	}{
+		{"nil", mpNilNode()}, {"true", mpB(true)}, {"posfix", mpU(0x7f)}, {"negfix", mpI(-32)},
+		{"u8", &mpNode{Kind: mpInt, U: 0x91, Code: 0xcc}}, {"u16", &mpNode{Kind: mpInt, U: 0x9191, Code: 0xcd}},
+		{"u32", &mpNode{Kind: mpInt, U: 0x91dc0091, Code: 0xce}}, {"u64", &mpNode{Kind: mpInt, U: 0x91dc009191dc0091, Code: 0xcf}},
+		{"i8", &mpNode{Kind: mpInt, Neg: true, I: -111, U: uint64(0xffffffffffffff91), Code: 0xd0}},
+		{"i16", &mpNode{Kind: mpInt, Neg: true, I: -28271, Code: 0xd1}},
+		{"i32", &mpNode{Kind: mpInt, Neg: true, I: -1847820143, Code: 0xd2}},
+		{"i64", &mpNode{Kind: mpInt, Neg: true, I: -7936424364840132207, Code: 0xd3}},
+		{"f32", raw([]byte{0xca}, pay(4))}, {"f64", raw([]byte{0xcb}, pay(8))},
+		{"fixstr", &mpNode{Kind: mpStr, S: pay(31)}}, {"str8", &mpNode{Kind: mpStr, S: pay(40), Code: 0xd9}},
+		{"str16", &mpNode{Kind: mpStr, S: pay(300), Code: 0xda}}, {"str32", &mpNode{Kind: mpStr, S: pay(5), Code: 0xdb}},
+		{"bin8", &mpNode{Kind: mpBin, S: pay(40), Code: 0xc4}}, {"bin16", &mpNode{Kind: mpBin, S: pay(300), Code: 0xc5}},
+		{"bin32", &mpNode{Kind: mpBin, S: pay(5), Code: 0xc6}},
+		{"fixext1", raw([]byte{0xd4, 0x05}, pay(1))}, {"fixext2", raw([]byte{0xd5, 0x05}, pay(2))},
+		{"fixext4.ts", raw([]byte{0xd6, 0xff}, pay(4))}, {"fixext8.ts", raw([]byte{0xd7, 0xff}, pay(8))},
+		{"fixext16", raw([]byte{0xd8, 0x05}, pay(16))},
+		{"ext8.ts", raw([]byte{0xc7, 12, 0xff}, make([]byte, 12))}, {"ext8", raw([]byte{0xc7, 40, 0x05}, pay(40))},
+		{"ext16", raw([]byte{0xc8, 0x01, 0x2c, 0x05}, pay(300))}, {"ext32", raw([]byte{0xc9, 0, 0, 0, 5, 0x05}, pay(5))},
+		{"emptyarr16", &mpNode{Kind: mpArr, Code: 0xdc}}, {"emptymap32", &mpNode{Kind: mpMap, Code: 0xdf}},
+		{"map16.1", &mpNode{Kind: mpMap, Code: 0xde, Kids: []*mpNode{mpS("x"), mpA(mpNilNode())}}},
+	}
+}
+
+// addDeepKind builds the input whose total nesting is exactly `total` and registers it, with its depth line
+func (g *hGen) addDeepKind(tag string, pl hPlace, enc hCont, pos hPos, nest hNest, sib *mpNode, total int) {
+	build := func(levels int) []byte { return pl.mk(hEnclose(enc, pos, nest.wrap(levels), sib)) }
+	// nesting of the position the deep part goes to (a container sibling may nest deeper than an empty chain)
+	base := mpMaxDepth(build(500)) - 500
+	if total < base+1 {
+		return
+	}
+	b := build(total - base)
+	if d := mpMaxDepth(b); d != total {
+		panic(fmt.Sprintf("harness: scanner measures %d on an input built to nest %d levels (%s)", d, total, tag))
+	}
+	g.add(pl.kind, tag, b)
+	if total <= 1000 && (pl.name == "unreg" || pl.name == "tok.skipped") {
+		g.depthLines = append(g.depthLines, [2]string{fmt.Sprintf("(hostile.depth %s %s)", hx(b), tag), fmt.Sprintf("depth:%d", total)})
+	}
+}
+
+// farDepth: one-byte array headers nested this deep in an unknown-type body cost the library about 460 bytes
+// of stack each: 13.8 MB against a bound of 64*30 KB + 8 MiB = 10.3 MB
+const farDepth = 30000
+
+func (g *hGen) deepKinds(thorough bool) {
+	places := hPlaces()
+	for _, enc := range hContKinds {
+		for _, pos := range hPositions(enc) {
+			for _, nest := range hNestings() {
+				tag := fmt.Sprintf("kinds.%s.%s.%s", enc.name, pos.name, nest.name())
+				for pi, pl := range places {
+					// the quick tier keeps the full product for unknown-type bodies and token caveats; the other
+					// places get the nestings through the enclosing kind itself and through fixarray
+					if !thorough && pi != 0 && pi != 3 && nest.k.name != enc.name && nest.k.name != "fixarr" {
+						continue
+					}
+					depths := []int{modelBudget, modelBudget + 1}
+					if pi == 0 || pi == 3 {
+						depths = []int{modelBudget - 1, modelBudget, modelBudget + 1, modelBudget + 2}
+					}
+					if thorough || (pi == 0 && enc.name == nest.k.name) {
+						depths = []int{196, 197, 198, 199, 200, 201, 202, 203, 204}
+					}
+					for _, d := range depths {
+						g.addDeepKind(tag+"."+pl.name, pl, enc, pos, nest, nil, d)
+					}
+				}
+				// far beyond the budget, nested through the one-byte header so that the stack outweighs the
+				// input: every enclosing kind and position, in an unknown-type body and in a token
+				if nest.k.name == "fixarr" {
+					g.addDeepKind(tag+".unreg.far", places[0], enc, pos, nest, nil, farDepth)
+					if thorough {
+						g.addDeepKind(tag+".tok.cavs.far", places[3], enc, pos, nest, nil, 2*farDepth)
+					}
+				}
+			}
+		}
+	}
+	// siblings of every header width in front of the deep part
+	fix := hNest{hContKinds[0], false}
+	for _, sb := range hSiblings() {
+		for _, enc := range []hCont{hContKinds[0], hContKinds[1], hContKinds[4], hContKinds[5]} {
+			var poss []hPos
+			if enc.isMap {
+				poss = []hPos{{"val0", 1}, {"key1", 2}, {"val2", 5}} // sibling as key0 / as val0 / as key2
+			} else {
+				poss = []hPos{{"middle", 1}, {"last", 2}}
+			}
+			for _, pos := range poss {
+				tag := fmt.Sprintf("sibling.%s.%s.%s", sb.name, enc.name, pos.name)
+				for _, pi := range []int{0, 4} {
+					for _, d := range []int{modelBudget, modelBudget + 1} {
+						g.addDeepKind(tag+"."+places[pi].name, places[pi], enc, pos, fix, sb.n, d)
+					}
+				}
+				if (pos.name == "last" && enc.name == "arr16") || (thorough && pos.name == "val2") {
+					g.addDeepKind(tag+".unreg.far", places[0], enc, pos, fix, sb.n, farDepth)
+				}
+			}
+		}
 	}
 }
 
@@ -1846,6 +2212,7 @@ func famHostile(r *Rng, o *Out, tier string) {
 	g.matrix()
 	g.nonces()
 	g.deep(maxDepth)
+	g.deepKinds(tier == "thorough")
 	g.oversize(true)
 	g.skeletons(1200 * scale)
 	g.unknown(500 * scale)
@@ -1859,6 +2226,10 @@ func famHostile(r *Rng, o *Out, tier string) {
 	t99999 := []byte{0x92, 0xce, 0x00, 0x01, 0x86, 0x9f}
 	g.addRep("cavs", "deepfatal.unreg.arr.over200", t99999, []byte{0x91}, 1000000, []byte{0xc0})
 	g.addRep("cavs", "deepfatal.ifpresent.over200", nil, []byte{0x92, 0x0d, 0x92}, 300000, append([]byte{0x90}, bytes.Repeat([]byte{0x00}, 300000)...))
+	// the deep part in the second half of a map16 / as a key of a map32 / as the last element of an array32
+	g.addRep("cavs", "deepfatal.map16.val1.over200", unhx("92cf0001000000000007de0002a161c0a162"), []byte{0x91}, 1000000, []byte{0xc0})
+	g.addRep("cavs", "deepfatal.map32.key1.over200", unhx("9211df00000002a161c0"), []byte{0x91}, 1000000, []byte{0xc0, 0xc0})
+	g.addRep("mac", "deepfatal.tok.skipped.arr32.last.over200", unhx("81a14add00000003c0c0"), []byte{0x91}, 1000000, []byte{0xc0})
 	if tier == "thorough" {
 		g.addRep("cavs", "deepfatal.unreg.arr.over200", t99999, []byte{0x91}, 4000000, []byte{0xc0})
 		g.addRep("cavs", "deepfatal.unreg.map.over200", []byte{0x92, 0x11}, []byte{0x81, 0xa1, 0x61}, 1000000, []byte{0xc0})
@@ -1923,5 +2294,10 @@ func famHostile(r *Rng, o *Out, tier string) {
 			o.emit(fmt.Sprintf("(dec.%s %s)", in.kind, hx(in.data)), res.val)
 			o.count("value-line")
 		}
+	}
+	// the harness's scanner against the model's decoder (no library code involved)
+	for _, dl := range g.depthLines {
+		o.emit(dl[0], dl[1])
+		o.count("depth-line")
 	}
 }
